@@ -1,5 +1,6 @@
 import PyomaVerif.Codec
 import PyomaVerif.Model.GeoFile
+import PyomaVerif.Model.GeoLines
 import PyomaVerif.Ops.C19
 open Lean PV PV.Codec PV.Geo
 namespace PV.Ops.GeoFile
@@ -20,6 +21,35 @@ def byFileOp (j : Json) : Except String Json := do
     | .ok (.geo2 g) => Json.mkObj [("ok", out2ToJson g), ("kind", "geo2")]
     | .error e => fileErrToJson e)
 
-def ops : List (String × (Json → Except String Json)) := [("c19_by_file", byFileOp)]
+def segsToJson (l : List Seg) : Json := listToJson (fun a => Json.arr #[orowToJson a.1, orowToJson a.2]) l
+
+def linesToJson (l : Lines) : Json := Json.mkObj [("bg", segsToJson l.bg), ("sens", segsToJson l.sens)]
+
+/-- the arguments of `c19_plotgeo1` → the line artists of `def_geo1` + `plot_mode_geo1`: `{"bg": [[start, end]], "sens": …}` -/
+def plotLines1Op (j : Json) : Except String Json := do
+  let nm ← namesOfJson (← field j "names")
+  let r ← refOfJson (fieldD j "ref_ind" .null)
+  let co ← tblOfJson (← field j "coord")
+  let di ← arrArgOfJson (← field j "dir")
+  let phi ← listOf ratOfJson (← field j "phi")
+  let sc ← ratOfJson (← field j "scale")
+  pure (resToJson linesToJson
+    (defPlotGeo1Lines nm co di (← oarrArg j "lines") (← oarrArg j "bgNodes") (← oarrArg j "bgLines")
+      (← oarrArg j "bgSurf") r phi sc))
+
+/-- the arguments of `c19_plotgeo2` → the line artists of `def_geo2` + `plot_mode_geo2_mpl` -/
+def plotLines2Op (j : Json) : Except String Json := do
+  let nm ← namesOfJson (← field j "names")
+  let r ← refOfJson (fieldD j "ref_ind" .null)
+  let pt ← tblOfJson (← field j "pts")
+  let mp ← tblOfJson (← field j "map")
+  let phi ← listOf ratOfJson (← field j "phi")
+  let sc ← ratOfJson (← field j "scale")
+  pure (resToJson linesToJson
+    (defPlotGeo2Lines nm pt mp (← oarrArg j "cstr") (← oarrArg j "sign") (← oarrArg j "lines") (← oarrArg j "surf")
+      (← oarrArg j "bgNodes") (← oarrArg j "bgLines") (← oarrArg j "bgSurf") r phi sc))
+
+def ops : List (String × (Json → Except String Json)) :=
+  [("c19_by_file", byFileOp), ("c19_plotlines1", plotLines1Op), ("c19_plotlines2", plotLines2Op)]
 
 end PV.Ops.GeoFile
